@@ -33,7 +33,7 @@ ASSUMPTIONS = [
 
 def floors(tier):
     return {"clean": 800, "garbage": 800, "nontrivial": 500, "all-accepted": 100,
-            "filtered-frame-malformed": 100}
+            "filtered-frame-malformed": 100, "short-reads": 300}
 
 
 def plan(tier, seed):
@@ -45,7 +45,10 @@ def run(data, opts):
 
     logging.disable(logging.CRITICAL)
     try:
-        return S.read_all(io.BytesIO(data), opts, handler=(lambda e: None) if opts["quitonerror"] == 1 else None,
+        bursts = opts.get("_bursts")
+        stream = S.TrackingStream(data, bursts) if bursts else io.BytesIO(data)
+        o = {k: v for k, v in opts.items() if not k.startswith("_")}
+        return S.read_all(stream, o, handler=(lambda e: None) if o["quitonerror"] == 1 else None,
                           limit=4 * len(data) + 50)
     finally:
         logging.disable(logging.NOTSET)
@@ -62,7 +65,8 @@ def check(case) -> core.Out:
     items, opts = case["items"], dict(case["opts"])
     data = streams.stream_bytes(items)
     clean = case["clean"]
-    out = core.Out(classes=["clean" if clean else "garbage"], dig=core.digest((data, sorted(opts.items()))))
+    out = core.Out(classes=["clean" if clean else "garbage"] + (["short-reads"] if opts.get("_bursts") else []),
+                   dig=core.digest((data, sorted((k, repr(v)) for k, v in opts.items()))))
     try:
         ref, exc = run(data, dict(opts, protfilter=7, parsing=True))
     except S.HarnessHang:
@@ -134,7 +138,9 @@ def check(case) -> core.Out:
             out.viol.append((f"{PROP}|noparse|framing-changed",
                              f"parsing=True raws are not a subsequence of parsing=False raws (mask {F}); "
                              f"stream {data[:50].hex()}"))
-        if clean and case.get("all_accepted") and got != want:
+        # (with a source that returns short reads a frame can be abandoned half way and
+        #  its remaining bytes rescanned, so only the subsequence relation applies there)
+        if clean and case.get("all_accepted") and not opts.get("_bursts") and got != want:
             out.viol.append((f"{PROP}|noparse|raws-differ",
                              f"all frames accepted, yet parsing=False gives {len(got)} raws vs {len(want)} (mask {F}); "
                              f"stream {data[:50].hex()}"))
@@ -155,6 +161,8 @@ OPTS = st.fixed_dictionaries({
     "validate": st.sampled_from([1, 1, 0]),
     "parsebitfield": st.just(1),
     "quitonerror": st.sampled_from([0, 1]),
+    # a source that hands out the data in bursts (reads may come back short), or not
+    "_bursts": st.one_of(st.none(), st.none(), st.lists(st.integers(1, 60), min_size=1, max_size=20)),
 })
 
 
